@@ -43,9 +43,11 @@ class Builder:
             return cls(e.elt, gens, conds, e)
         return None
 
-    def rename_map(self):
+    def rename_map(self, upto=None):
         m = {}
         for i, (t, _) in enumerate(self.gens):
+            if upto is not None and i >= upto:
+                break
             if isinstance(t, ast.Name):
                 m[t.id] = '_g%d' % i
             elif isinstance(t, (ast.Tuple, ast.List)):
@@ -54,8 +56,8 @@ class Builder:
                         m[el.id] = '_g%d_%d' % (i, j)
         return m
 
-    def renamed(self, e):
-        m = self.rename_map()
+    def renamed(self, e, upto=None):
+        m = self.rename_map(upto)
 
         class R(ast.NodeTransformer):
             def visit_Name(self, n):
@@ -68,7 +70,7 @@ class Builder:
         for i, (t, it) in enumerate(self.gens):
             shape = len(t.elts) if isinstance(t, (ast.Tuple, ast.List)) else 0
             # an iterable may mention earlier generator variables
-            gens.append((shape, T(self.renamed(strip_wrappers(it)))))
+            gens.append((shape, T(self.renamed(strip_wrappers(it), upto=i))))
         return T(self.renamed(self.elt)), gens, sorted(T(self.renamed(c)) for c in self.conds)
 
     def show(self):
